@@ -464,3 +464,45 @@ def forwarded_parameter_obligations(model, rep, fn, pname, callees, clause, rule
         rep.ob(rule, fn.anchor, f"the requested `{pname}` reaches `{c.func.attr}(...)`", ok, det, node=c, fn=fn, clause=clause,
                stmt=f"{pname} -> {c.func.attr} in {fn.name}")
     return n
+
+
+# ----------------------------------------------------------------------------------------------------------------------------------------------------------
+# PUREARG - array arguments are read-only
+
+
+def _array_params(fn):
+    out = []
+    a = fn.node.args
+    for p in list(a.posonlyargs) + list(a.args) + list(a.kwonlyargs):
+        ann = norm_src(p.annotation) if p.annotation is not None else ""
+        if "Array" in ann or "ndarray" in ann:
+            out.append(p.arg)
+    return out
+
+
+def inplace_argument_obligations(model, rep, fns, clause, rule="PUREARG"):
+    """A function that receives an array (annotation NDArray / AnyArray / np.ndarray / da.Array) must not change it in place: the caller keeps using the array -
+    the alignment models hand their *cached* pre-transformed template to every `_landscape` / `_optimize` call, so `template *= mask` there corrupts every later
+    score.  In-place forms seen by the effect analysis: `p *= x`, `p[...] = x`, `p[...] += x`, mutating methods, also through helpers (depth 2)."""
+    from ..effects import EffectAnalysis
+    ea = EffectAnalysis(model)
+    n = 0
+    for fn in fns:
+        ps = _array_params(fn)
+        if not ps:
+            continue
+        n += 1
+        rep.instance(rule, fn.loc())
+        effs = [e for e in ea.closed_effects(fn, depth=2) if e.kind == "mutate" and e.root.startswith("param:") and e.root[6:] in ps]
+        # a parameter that was re-bound to a fresh array before the mutation (`img = img.copy(); img *= m`) is not the caller's array any more
+        kept = []
+        for e in effs:
+            p = e.root[6:]
+            rebound = any(isinstance(st, ast.Assign) and any(isinstance(t, ast.Name) and t.id == p for t in st.targets) and
+                          getattr(st, "lineno", 0) < getattr(e.node, "lineno", 0) for st in ast.walk(fn.node)) if e.fn is fn else False
+            if not rebound:
+                kept.append(e)
+        rep.ob(rule, fn.anchor, "array arguments are not changed in place (the caller - and the template cache - keep using them)", not kept,
+               "; ".join(e.describe() for e in kept[:2]), node=(kept[0].node if kept else fn.node), fn=(kept[0].fn if kept else fn), clause=clause,
+               stmt=(None if kept else f"def {fn.name} array arguments"))
+    return n
